@@ -80,11 +80,16 @@ func (s *symbol) hints(margin int) hintMap {
 }
 
 // render calls the real writer (a fresh one per call).
-func (s *symbol) render(w, h, margin int) (out *gozxing.BitMatrix, err error, pmsg, site string) {
+func (s *symbol) render(w, h, margin int, withoutHintEntry bool) (out *gozxing.BitMatrix, err error, pmsg, site string) {
 	hints := s.hints(margin)
 	if margin != defaultMargin && (w+h+margin)%3 == 0 {
 		// the documented string spelling, on a third of the requests, in every form strconv.Atoi reads
 		hints[gozxing.EncodeHintType_MARGIN] = fmt.Sprintf([]string{"%d", "%02d", "%03d", "+%d"}[((w+h)/3)%4], margin)
+	}
+	if hints == nil && withoutHintEntry {
+		// the second entry point for a request without hints
+		pmsg, site = mc.Guard(func() { out, err = s.newWriter().EncodeWithoutHint(s.Content, s.format, w, h) })
+		return
 	}
 	pmsg, site = mc.Guard(func() {
 		out, err = s.newWriter().Encode(s.Content, s.format, w, h, hints)
@@ -262,9 +267,20 @@ func marginText(m int) string {
 }
 
 func checkOne(l *mc.Local, s *symbol, w, h, margin int, verbose bool) {
+	checkOneEntry(l, s, w, h, margin, verbose, false)
+	if s.hints(margin) == nil {
+		// a request without hints has a second entry point, EncodeWithoutHint: the same statement
+		checkOneEntry(l, s, w, h, margin, verbose, true)
+	}
+}
+
+func checkOneEntry(l *mc.Local, s *symbol, w, h, margin int, verbose, withoutHintEntry bool) {
 	cs := caseRec{s.Name, s.Content, w, h, margin}
 	desc := fmt.Sprintf("%s content=%q requested %dx%d margin=%s", s.Name, abbreviate(s.Content), w, h, marginText(margin))
-	out, err, pmsg, site := s.render(w, h, margin)
+	if withoutHintEntry {
+		desc += " through EncodeWithoutHint"
+	}
+	out, err, pmsg, site := s.render(w, h, margin, withoutHintEntry)
 	l.Count("evaluations", 1)
 	if pmsg != "" {
 		chk.Violation("C14/panic/"+site, fmt.Sprintf("panic %q: %s", pmsg, desc), cs)
@@ -468,7 +484,7 @@ func matrixOf(bm *gozxing.BitMatrix) [][]bool {
 // checks it against the documented default (weaker reading: it may be larger, never smaller).
 func (s *symbol) measureDefault() bool {
 	cs := caseRec{s.Name, s.Content, 0, 0, defaultMargin}
-	out, err, pmsg, site := s.render(0, 0, defaultMargin)
+	out, err, pmsg, site := s.render(0, 0, defaultMargin, false)
 	if pmsg != "" {
 		chk.Violation("C14/panic/"+site, fmt.Sprintf("panic %q rendering %s at 0x0 without hints", pmsg, s.Name), cs)
 		return false
@@ -551,7 +567,7 @@ func dmSymbol(rows, cols int) *symbol {
 	for n := 1; n <= len(text); n++ {
 		s.Content = text[:n]
 		// the bare symbol: 0x0 request (MARGIN 0 is passed as the property words it; Data Matrix has no margin)
-		out, err, pmsg, site := s.render(0, 0, 0)
+		out, err, pmsg, site := s.render(0, 0, 0, false)
 		if pmsg != "" {
 			chk.Violation("C14/panic/"+site, fmt.Sprintf("panic %q rendering Data Matrix %q at 0x0", pmsg, s.Content), caseRec{s.Name, s.Content, 0, 0, 0})
 			return nil
@@ -614,7 +630,7 @@ func onedSymbol(sp onedSpec, ci int) *symbol {
 	s := &symbol{Kind: "1d:" + sp.name, Name: fmt.Sprintf("%s#%d", sp.name, ci), Content: sp.contents[ci], oneD: true, margins: true,
 		docDefault: sp.def, format: sp.format, newWriter: sp.newW}
 	cs := caseRec{s.Name, s.Content, 0, 0, 0}
-	out, err, pmsg, site := s.render(0, 0, 0)
+	out, err, pmsg, site := s.render(0, 0, 0, false)
 	if pmsg != "" {
 		chk.Violation("C14/panic/"+site, fmt.Sprintf("panic %q rendering %s %q at 0x0 margin 0", pmsg, sp.name, s.Content), cs)
 		return nil
